@@ -60,7 +60,8 @@ Lemma values_R (vals : list R) (rw : list (list R)) :
   gl_integrate_values ROps vals rw = Ok (fold_left vstep (combine vals rw) 0).
 Proof.
   intros Hl Hc. unfold gl_integrate_values. apply Nat.eqb_eq in Hl. rewrite Hl.
-  unfold two_col in Hc. rewrite Hc. reflexivity.
+  unfold two_col in Hc. rewrite Hc. cbn [negb]. f_equal.
+  replace (zero ROps) with 0 by (unfold zero; cbn; field). reflexivity.
 Qed.
 
 Lemma vfold_linear (al be : R) (rw : list (list R)) : forall (us vs : list R) (a1 a2 : R),
@@ -97,7 +98,7 @@ Example ex_values_linear :
   let rw := [[-1; 1]; [0; 2]; [1; 1]] in
   length [1; 2; 3] = length rw /\ length [4; 5; 6] = length rw /\ two_col rw = true /\
   gl_integrate_values ROps [1; 2; 3] rw = Ok (0 + 1 * 1 + 2 * 2 + 3 * 1).
-Proof. cbn. repeat split. Qed.
+Proof. cbn. repeat split. f_equal. field. Qed.
 
 (** non-vacuity for the guard: a NaN-free abstract instance is not needed; two values against three rows *)
 Example ex_guard_shape : values_rejected 2 [2; 2; 2]%nat = true /\ values_rejected 3 [2; 2; 2]%nat = false /\
